@@ -5,6 +5,7 @@ import random
 import common as C
 
 PID = "C13"
+# (the cg-matrix correspondence also uses the "C12 cg" op of TfPwaV.Model.WignerF)
 DRIVER = [("C13", "TfPwaV.Model.LS", "LS.handle")]
 LEAN_TARGETS = ["TfPwaV.Props.C13", "TfPwaV.Props.C13b"]
 PROP_MODULES = ["TfPwaV.Props.C13", "TfPwaV.Props.C13b"]
@@ -69,7 +70,7 @@ def n_indep_helicity(ja2, jb2, jc2, eta):
     return (len(pairs) - z) // 2 + (z if eta == 1 else 0)
 
 
-def correspond(ctx, res):
+def correspond_ls(ctx, res):
     from tf_pwa.particle import GetA2BC_LS_list
     maxj2 = 8
     rows = list(grid(maxj2, True))
@@ -128,6 +129,59 @@ def correspond(ctx, res):
     res.coverage["l_list_cases"] = n_l
 
 
+def correspond(ctx, res):
+    correspond_ls(ctx, res)
+    correspond_cg_matrix(ctx, res)
+
+
+def correspond_cg_matrix(ctx, res):
+    """Every entry of the real get_cg_matrix vs sqrt((2l+1)/(2ja+1)) <jb lb; jc -lc|s d><l 0; s d|ja d> from the exact CG
+    model (TfPwaV.Wigner.cgSq / sign, the model LSGram.gramCheck is about)."""
+    import math
+    import numpy as np
+    from fractions import Fraction
+    from tf_pwa.amp import HelicityDecay, Particle
+    lim = 3 if ctx.quick else 5
+    lines, meta = [], []
+    k = 0
+    for ja in range(lim + 1):
+        for jb in range(lim + 1):
+            for jc in range(lim + 1):
+                if (ja + jb + jc) % 2:
+                    continue
+                k += 1
+                d = HelicityDecay(Particle("gA%d" % k, J=spin(ja), P=1), [Particle("gB%d" % k, J=spin(jb), P=1), Particle("gC%d" % k, J=spin(jc), P=1)], p_break=True, disable=True)
+                ls = d.get_ls_list()
+                if not ls:
+                    continue
+                m = np.asarray(d.get_cg_matrix(), dtype=float)
+                hb, hc = d.list_helicity_inner()
+                for i, (l, s_) in enumerate(ls):
+                    l2, s2 = int(round(2 * l)), int(round(2 * s_))
+                    for ib, lb in enumerate(hb):
+                        for ic, lc in enumerate(hc):
+                            lb2, lc2 = int(round(2 * lb)), int(round(2 * lc))
+                            dl = lb2 - lc2
+                            lines.append("C12 cg %d %d %d %d %d %d" % (jb, lb2, jc, -lc2, s2, dl))
+                            lines.append("C12 cg %d %d %d %d %d %d" % (l2, 0, s2, dl, ja, dl))
+                            meta.append(((ja, jb, jc), (l2, s2), (lb2, lc2), float(m[i][ib][ic])))
+    out = ctx.model.query(lines)
+
+    def val(line):
+        sg, sq = line.split()
+        n, dnm = sq.split("/")
+        return int(sg) * math.sqrt(Fraction(int(n), int(dnm)))
+    bad = []
+    for j, (trip, ls_, hel, impl) in enumerate(meta):
+        want = math.sqrt((ls_[0] + 1) / (trip[0] + 1)) * val(out[2 * j]) * val(out[2 * j + 1])
+        if not abs(impl - want) < 1e-12:
+            bad.append({"2J": trip, "(2l,2s)": ls_, "(2lb,2lc)": hel, "impl": impl, "model": want})
+    res.coverage["cg_matrix_entries_compared"] = len(meta)
+    res.coverage["traces_validated_against_impl"] = res.coverage.get("traces_validated_against_impl", 0) + len(meta)
+    if bad:
+        res.broke("correspondence get_cg_matrix entries vs exact CG model", {"n": len(bad), "first": bad[:3]})
+
+
 def search(ctx, res):
     """Direct check of the property statement on the implementation (independent oracle)."""
     import numpy as np
@@ -184,6 +238,11 @@ def search(ctx, res):
                     m2 = m.reshape(len(ls), -1)  # amp.core layout: [(l,s), lambda_b, lambda_c]
                     rank = np.linalg.matrix_rank(m2, tol=1e-9)
                     nr += 1
+                    # theorem ls_gram_orthonormal on the implementation: the couplings' vectors are orthonormal
+                    gram = m2 @ m2.T
+                    if not np.max(np.abs(gram - np.eye(len(ls)))) < 1e-9:
+                        res.fail("cg_matrix:gram", "get_cg_matrix rows are not orthonormal for 2J=(%d,%d,%d) P=%s p_break=%s: max |M M^T - 1| = %.3g" % (
+                            ja, jb, jc, p3, pbk, float(np.max(np.abs(gram - np.eye(len(ls)))))), {"ja2": ja, "jb2": jb, "jc2": jc, "P": p3, "p_break": pbk})
                     if rank != len(ls):
                         res.fail("cg_matrix:rank", "get_cg_matrix rank %d < %d couplings for 2J=(%d,%d,%d) P=%s p_break=%s" % (
                             rank, len(ls), ja, jb, jc, p3, pbk), {"ja2": ja, "jb2": jb, "jc2": jc, "P": p3, "p_break": pbk})
